@@ -25,13 +25,16 @@ pub fn handle(words: &[&str]) -> String {
     format!("{re} {bits}")
 }
 
-/// `rxwrap EXT PATTERN`: the -regex wrapper's inside_group (hex of the result)
+/// `rxwrap REGEXTYPE PATTERN`: the -regex wrapper's inside_group (hex of the result)
 pub fn handle_rxwrap(words: &[&str]) -> String {
-    let [ext, pat] = words else {
+    let [ty, pat] = words else {
         return "badcase".into();
     };
     let Ok(p) = String::from_utf8(unhex(pat)) else {
         return "badutf8".into();
     };
-    hex(findutils::find::matchers::regex_verif::inside_group(&p, *ext == "1").as_bytes())
+    match findutils::find::matchers::regex_verif::inside_group(&p, ty) {
+        Some(t) => hex(t.as_bytes()),
+        None => "badcase".into(),
+    }
 }
